@@ -29,6 +29,28 @@ Ltac h5_eval :=
        K_sample_mapping_ids K_plate_ids K_plate_names K_control_treatment_name
        String.eqb Ascii.eqb Bool.eqb andb].
 
+(* ---------- the string codec helpers ----------
+   encode_string_array / decode_string_array as translated (the `arr.size == 0` guard, np.empty of the same shape,
+   np.char.encode / decode which numpy answers with a float64 array when there is no element) are the identity on
+   the strings of EVERY array, 1-d or 2-d, with or without elements: the model's bullet 2.  (Without the guard the
+   translation would raise tag 33 on the arrays of a screen without rows - the defect repaired in /repo 81a412f.) *)
+Theorem src_encode_string_array_1d_is_identity : forall a : list name, src_encode_string_array_1d a = Ok a.
+Proof. intros a. unfold src_encode_string_array_1d, np_empty_like1, np_char_codec1, bname in *. destruct (arr1_empty a); reflexivity. Qed.
+Theorem src_encode_string_array_2d_is_identity : forall a : h5_2d name, src_encode_string_array_2d a = Ok a.
+Proof. intros a. unfold src_encode_string_array_2d, np_empty_like2, np_char_codec2, bname in *. destruct (arr2_empty a); reflexivity. Qed.
+Theorem src_decode_string_array_1d_is_identity : forall a : list bname, src_decode_string_array_1d a = Ok a.
+Proof. intros a. unfold src_decode_string_array_1d, np_empty_like1, np_char_codec1, bname in *. destruct (arr1_empty a); reflexivity. Qed.
+Theorem src_decode_string_array_2d_is_identity : forall a : h5_2d bname, src_decode_string_array_2d a = Ok a.
+Proof. intros a. unfold src_decode_string_array_2d, np_empty_like2, np_char_codec2, bname in *. destruct (arr2_empty a); reflexivity. Qed.
+
+Theorem src_string_codec_is_identity :
+  (forall a : list name, src_encode_string_array_1d a = Ok a) /\ (forall a : h5_2d name, src_encode_string_array_2d a = Ok a) /\
+  (forall a : list bname, src_decode_string_array_1d a = Ok a) /\ (forall a : h5_2d bname, src_decode_string_array_2d a = Ok a).
+Proof.
+  repeat split; [apply src_encode_string_array_1d_is_identity | apply src_encode_string_array_2d_is_identity
+                | apply src_decode_string_array_1d_is_identity | apply src_decode_string_array_2d_is_identity].
+Qed.
+
 (* ---------- Screen.save_h5 ---------- *)
 (* the raw file the translated save_h5 writes, dataset by dataset in creation order *)
 Definition raw_of_file (f : file) : h5raw :=
@@ -49,7 +71,8 @@ Qed.
 
 Theorem src_screen_save_h5_writes : forall s : screen, src_screen_save_h5 s = Ok (raw_of_file (save s)).
 Proof.
-  intros s. unfold src_screen_save_h5, raw_of_file. h5_eval.
+  intros s. unfold src_screen_save_h5, raw_of_file.
+  rewrite !src_encode_string_array_1d_is_identity, !src_encode_string_array_2d_is_identity. h5_eval.
   unfold save, sc_tnames, sc_tdoses, sc_tids, sc_obs, sc_mask, sc_snames, sc_pnames, tmap_cols, smap_cols.
   cbn [fst snd f_arity f_tnames f_tdoses f_tids f_tm_names f_tm_doses f_tm_ids f_obs f_mask f_sids f_snames f_sm_names
        f_sm_ids f_pids f_pnames f_ctrl].
@@ -90,7 +113,10 @@ Proof.
   apply andb_true_iff in Ea. destruct Ea as [Ea _]. apply Nat.eqb_eq in Ea.
   injection H as <-.
   unfold src_screen_load_h5. cbv zeta.
-  rewrite Etn, Etd, Eob, Emk, Esn, Epn, Ec, Esmn, Esmi, Etmn, Etmd, Etmi. cbn [res_bind].
+  repeat first [ rewrite Etn | rewrite Etd | rewrite Eob | rewrite Emk | rewrite Esn | rewrite Epn | rewrite Ec
+               | rewrite Esmn | rewrite Esmi | rewrite Etmn | rewrite Etmd | rewrite Etmi
+               | rewrite src_decode_string_array_1d_is_identity | rewrite src_decode_string_array_2d_is_identity
+               | progress cbn [res_bind] ].
   rewrite res_bind_ok_r, <- arrays_screen_is_load.
   cbn [f_arity f_tnames f_tdoses f_tm_names f_tm_doses f_tm_ids f_obs f_mask f_snames f_sm_names f_sm_ids f_pnames f_ctrl].
   destruct tn as [a tn], td as [a0 td]. cbn [fst snd] in *. subst a0. reflexivity.
@@ -147,7 +173,8 @@ Proof. unfold h5_close_space, raw_of_sfile. h5_eval. now destruct g. Qed.
 
 Theorem src_space_save_h5_writes : forall sp : space, src_space_save_h5 sp = Ok (raw_of_sfile (space_save sp)).
 Proof.
-  intros sp. unfold src_space_save_h5, raw_of_sfile. h5_eval. unfold space_save, tmap_cols, smap_cols.
+  intros sp. unfold src_space_save_h5, raw_of_sfile. rewrite !src_encode_string_array_1d_is_identity. h5_eval.
+  unfold space_save, tmap_cols, smap_cols.
   cbn [fst snd g_tnames g_tdoses g_tids g_snames g_sids g_ctrl]. reflexivity.
 Qed.
 
@@ -161,7 +188,9 @@ Proof.
   intros w g H. unfold h5_close_space in H.
   close_step H tn Etn. close_step H td Etd. close_step H ti Eti. close_step H sn Esn. close_step H si Esi. close_step H c Ec.
   injection H as <-.
-  unfold src_space_load_h5. cbv zeta. rewrite Etn, Etd, Eti, Esn, Esi, Ec. cbn [res_bind].
+  unfold src_space_load_h5. cbv zeta.
+  repeat first [ rewrite Etn | rewrite Etd | rewrite Eti | rewrite Esn | rewrite Esi | rewrite Ec
+               | rewrite src_decode_string_array_1d_is_identity | progress cbn [res_bind] ].
   rewrite res_bind_ok_r. unfold arrays_space, space_load. cbn [fst snd g_tnames g_tdoses g_tids g_snames g_sids g_ctrl].
   reflexivity.
 Qed.
